@@ -149,6 +149,14 @@ pub fn judge(block: &[u8], sender: Role) -> Verdict {
                 if v.len() > 20 {
                     return Verdict::Reject("connection id longer than 20 bytes");
                 }
+                if id == ID_ODCID && v.len() < 8 {
+                    // RFC 9000 7.2: a client's first Destination Connection ID "MUST be at
+                    // least 8 bytes in length", and 7.3 makes the client compare this
+                    // parameter with that very value: a shorter one can never match, so
+                    // refusing it while decoding and refusing it during authentication are
+                    // the same observable outcome
+                    dontcare = Some("original_destination_connection_id shorter than 8 bytes");
+                }
                 let v = Some(v.clone());
                 match id {
                     ID_ODCID => out.original_destination_connection_id = v,
